@@ -1,6 +1,6 @@
-tokens: id num if then else
+tokens: id num IF THEN ELSE
 P -> | P St ';'
-St -> id '=' E | if E then St | if E then St else St | '{' P '}'
+St -> id '=' E | IF E THEN St | IF E THEN St ELSE St | '{' P '}'
 E -> E '+' Tm | E '-' Tm | Tm
 Tm -> Tm '*' F | Tm '/' F | F
 F -> '(' E ')' | '-' F | id | num | id '(' Args ')'
